@@ -1,9 +1,13 @@
 (** C16  Printed values read back as the same values.
     Property theorems only (Model/Print.v is Display for Value/Number/pairs/vectors; [parse_i32]
-    is the lexer's integer conversion, [lex_next] the lexer). The real-number leaf is not proved:
-    the model's printer is validated against Rust's {:?} on every run (see the check). *)
+    is the lexer's integer conversion, [lex_next] the lexer, [read_text] the reader on a whole text).
+    [C16_display_read_round_trip] is the property itself for every proper list, nested to any depth, of
+    exact integers, booleans, characters and plain identifiers. Not proved: the real-number leaf (the
+    model's printer is validated against Rust's {:?} on every run, see the check), ratios, vectors and
+    dotted tails as parts of the tree theorem (their shapes are proved separately below). *)
 From Coq Require Import ZArith NArith List Bool.
-From RV Require Import Model.Common Model.Num Model.Datum Model.Lexer Model.Value Model.Print Proofs.PrintProofs.
+From RV Require Import Model.Common Model.Num Model.Datum Model.Lexer Model.Reader Model.Value Model.Print Model.Eval
+  Proofs.LexProofs Proofs.PrintProofs Proofs.RoundTrip.
 Import ListNotations.
 Local Open Scope Z_scope.
 
@@ -42,3 +46,31 @@ Theorem C16_display_pair_shape : forall f st a b sa sb,
    display (S f) st (VPair a b) = Some ([40%N] ++ sa ++ [32%N; 46%N; 32%N] ++ sb ++ [41%N])) /\
   display (S f) st (VPair a VNil) = Some ([40%N] ++ sa ++ [41%N]).
 Proof. exact display_pair_shape. Qed.
+
+(** the printed form of an integer, followed by a delimiter or the end of the input, is one token *)
+Theorem C16_printed_integer_is_its_token : forall z rest p f,
+  -2147483648 <= z <= 2147483647 -> delimited rest ->
+  lex_next (S f) (print_Z z ++ rest) p
+  = Ok (Some (TPrim (PInt z), adv_all (print_Z z) p), rest, adv_all (print_Z z) p).
+Proof. exact printed_integer_is_its_token. Qed.
+
+(** the round trip. [T] is the type of proper lists, nested to any depth and of any length, whose atoms
+    are exact integers of the i32 range, booleans, characters and plain identifiers; [tval t] is the
+    value, [in_range t] the side condition on the atoms. What [display] prints for such a value is a
+    text that the reader reads as exactly one datum, and that datum, quoted, evaluates to the value *)
+Theorem C16_display_read_round_trip : forall t st,
+  in_range t ->
+  exists text d, display (S (depth t)) st (tval t) = Some text /\
+                 read_text text = Ok [d] /\ (forall st', read_literal d st' = (Ok (tval t), st')).
+Proof. exact display_read_round_trip. Qed.
+
+(** also inside a longer text: the printed tree is read as one datum and nothing after it is consumed *)
+Theorem C16_printed_tree_is_read_back : forall t rest s,
+  in_range t -> delimited rest -> lrest s = ttext t ++ rest ->
+  exists d s', read_next s = Ok (Some d, s') /\ lrest s' = rest /\ dval d (tval t).
+Proof. exact printed_tree_is_read_back. Qed.
+
+(** not vacuous: (-42 (a #t) #\x 7) satisfies the side condition *)
+Theorem C16_a_tree_in_range :
+  in_range (Node [Leaf (AInt (-42)); Node [Leaf (ASym 97%N []); Leaf (ABool true)]; Leaf (AChar 120%N); Leaf (AInt 7)]).
+Proof. exact a_tree_in_range. Qed.
